@@ -114,6 +114,10 @@ def gen_one(r, i, tier):
     if specs is None:
         specs = [rand_spec(r, c) for c in cols]
     extra = {"columns": list(DT), "mode": mode}
+    if ndim >= 2 and r.random() < 0.4:
+        j = r.randrange(ndim)
+        if DT[cols[j]] != "bool":
+            extra["col_specs"] = {cols[j]: specs[j]}
     ops = []
     meta = {"mode": mode, "n": n, "cols": cols}
     ops.append(("dfhist", cols, DT, specs, copy.deepcopy(rows), extra)); meta["whole"] = 0
